@@ -79,6 +79,15 @@ def generate(tier, rng):
                     c.op(e.id, 'reprall', 'exhaustive-%s/multi-hint' % int_ty)
                 if unit_only or int_ty:
                     c.op(e.id, 'discrs', 'as-cast')
+    from ..spec import ESpec, VSpec
+    for j, idents in enumerate((['Mb', 'MB', 'Kb', 'KB', 'HttpOk', 'HTTPOk', 'Http_Ok'], ['Ok', 'Err', 'Some', 'None', 'Default', 'Option', 'Self_'])):
+        e = ESpec(id='c06n%d' % j, name='EnC06n%d' % j, repr='u8', derives=['FromRepr'], feats=['repr'])
+        e.variants = [VSpec(ident=x, discr=(10 if i == 2 else None), dis=(i == 4)) for i, x in enumerate(idents)]
+        e.extra['shape'] = 'variant names equal up to case / named like prelude items'
+        e.extra['no_noise'] = True
+        c.add(e)
+        c.op(e.id, 'reprall', 'exhaustive-u8/names')
+        c.op(e.id, 'discrs', 'as-cast')
     # a repr written for the GENERATED discriminants enum must not leak into from_repr's parameter type
     for j, (own, dattr) in enumerate(((None, 'repr(u8)'), ('u8', 'repr(align(2))'), ('i16', 'repr(align(4))'))):
         lays = reprcorpus.layouts(own, 4)
